@@ -10,6 +10,7 @@ import (
 	"sort"
 	"strings"
 
+	"github.com/hyperledger/firefly-signer/pkg/abi"
 	"github.com/hyperledger/firefly-signer/pkg/eip712"
 	"github.com/hyperledger/firefly-signer/pkg/ethsigner"
 	"github.com/hyperledger/firefly-signer/pkg/secp256k1"
@@ -346,6 +347,9 @@ func e712Judge(prop string) func(c *Ctx, req map[string]any, impl any, orc map[s
 				fs = append(fs, Finding{Kind: "violation", Region: "eip712.sign", Detail: "signature is not 65-byte R‖S‖V with V∈{27,28} verifying for the digest against the signer"})
 			}
 		}
+		if d, has := req["abiDerived"]; has {
+			fs = append(fs, Finding{Kind: "violation", Region: "eip712.abi-derived-types", Detail: "the type set derived from the ABI struct definition is not the hand-written equivalent: " + fmt.Sprint(d)})
+		}
 		if req["unmarshalErr"] == true {
 			if impl != "err" {
 				fs = append(fs, Finding{Kind: "mismatch", Region: "eip712.unmarshal", Detail: "harness and implementation disagree about JSON decoding"})
@@ -396,6 +400,83 @@ func buildDoc(r *Rng, ts e712Types, primary string, domTypes []e712Member, haveD
 	var sb strings.Builder
 	writeJSON(&sb, shuffleObj(r, doc))
 	return sb.String()
+}
+
+// ---- the ABI struct definition equivalent to a (non-recursive) type graph ----
+
+// genAcyclicTypeGraph: as genTypeGraph, but a struct only refers to structs later in the list (ABI tuples are trees),
+// and array dimensions differ from each other often (T[2][], T[][3], T[2][3]).
+func genAcyclicTypeGraph(r *Rng) (e712Types, string) {
+	n := 1 + r.Intn(5)
+	names := append([]string{}, structNames[:n]...)
+	ts := e712Types{}
+	for idx, nm := range names {
+		k := 1 + r.Intn(4)
+		var ms []e712Member
+		for i := 0; i < k; i++ {
+			var t string
+			if idx+1 < n && r.Intn(3) == 0 {
+				t = names[idx+1+r.Intn(n-idx-1)]
+			} else {
+				t = genAtomic(r)
+			}
+			for d := Pick(r, []int{0, 0, 1, 2, 2, 3}); d > 0; d-- {
+				if r.Bool() {
+					t += "[]"
+				} else {
+					t += fmt.Sprintf("[%d]", 1+r.Intn(3))
+				}
+			}
+			ms = append(ms, e712Member{Name: fmt.Sprintf("f%d", i), Type: t})
+		}
+		ts[nm] = ms
+	}
+	return ts, names[0]
+}
+
+// abiParamFor: the ABI JSON parameter (tuple with components, Solidity-style internalType) for a member type
+func abiParamFor(r *Rng, ts e712Types, name, typ string) map[string]any {
+	base := typ
+	suffix := ""
+	if i := strings.Index(typ, "["); i >= 0 {
+		base, suffix = typ[:i], typ[i:]
+	}
+	ms, isStruct := ts[base]
+	if !isStruct {
+		return map[string]any{"name": name, "type": typ, "internalType": typ}
+	}
+	var comps []any
+	for _, m := range ms {
+		comps = append(comps, abiParamFor(r, ts, m.Name, m.Type))
+	}
+	if comps == nil {
+		comps = []any{}
+	}
+	return map[string]any{"name": name, "type": "tuple" + suffix, "internalType": "struct " + Pick(r, []string{"", "", "MyContract.", "a.b."}) + base + suffix, "components": comps}
+}
+
+// referenced: the struct types reachable from `primary` (what the ABI-derived type set contains)
+func referencedTypes(ts e712Types, primary string) e712Types {
+	out := e712Types{}
+	var walk func(t string)
+	walk = func(t string) {
+		if i := strings.Index(t, "["); i >= 0 {
+			t = t[:i]
+		}
+		ms, isStruct := ts[t]
+		if !isStruct {
+			return
+		}
+		if _, seen := out[t]; seen {
+			return
+		}
+		out[t] = ms
+		for _, m := range ms {
+			walk(m.Type)
+		}
+	}
+	walk(primary)
+	return out
 }
 
 func init() {
@@ -457,6 +538,73 @@ func init() {
 					extra["specTypes"] = specTypes
 					addE712Case(c, text, extra, fmt.Sprintf("doc.variant%d", variant))
 				}
+			}
+			// the type set derived from a Solidity ABI struct definition must hash identically to the hand-written
+			// equivalent: derive the types with ABItoTypedDataV4, hash a message under them, and judge the digest
+			// against the specification digest of the hand-written document
+			na := 60
+			if c.Thorough() {
+				na = 2500
+			}
+			for i := 0; i < na; i++ {
+				ts, primary := genAcyclicTypeGraph(r)
+				pj := abiParamFor(r, ts, "msg", primary)
+				pb, _ := json.Marshal(pj)
+				var param abi.Parameter
+				_ = json.Unmarshal(pb, &param)
+				ctx := context.Background()
+				extra := map[string]any{"hasAbstract": true, "expect": "digest", "primaryType": primary, "abiParam": pj}
+				want := referencedTypes(ts, primary)
+				derivedTypes := map[string]any{}
+				tc, terr := param.TypeComponentTreeCtx(ctx)
+				if terr != nil {
+					continue
+				}
+				pt, typeSet, aerr := eip712.ABItoTypedDataV4(ctx, tc)
+				if aerr != nil {
+					extra["abiDerived"] = "err"
+				} else {
+					for tn, members := range typeSet {
+						l := []any{}
+						for _, m := range members {
+							l = append(l, map[string]any{"name": m.Name, "type": m.Type})
+						}
+						derivedTypes[tn] = l
+					}
+					b, _ := json.Marshal(derivedTypes)
+					wb, _ := json.Marshal(typesPlain(want))
+					var wantPlain map[string]any
+					_ = json.Unmarshal(wb, &wantPlain)
+					if pt != primary || !same(derivedTypes, wantPlain) {
+						extra["abiDerived"] = "differs: primaryType=" + pt + " types=" + trunc(string(b), 300) + " hand-written=" + trunc(string(wb), 300)
+					}
+				}
+				msgAbs, msgC := genE712Val(r, ts, primary, 4)
+				if msgC == nil || msgC == "omit" {
+					continue
+				}
+				extra["domainVal"] = map[string]any{"st": map[string]any{}}
+				extra["messageVal"] = msgAbs
+				specAll := e712Types{}
+				for k, v := range want {
+					specAll[k] = v
+				}
+				specAll["EIP712Domain"] = nil
+				extra["specTypes"] = typesPlain(specAll)
+				// the document carries the DERIVED types (or, if derivation failed, the hand-written ones — the
+				// failure itself is reported through abiDerived)
+				docTypes := any(derivedTypes)
+				if aerr != nil {
+					docTypes = typesPlain(want)
+				}
+				dt := map[string]any{}
+				for k, v := range docTypes.(map[string]any) {
+					dt[k] = v
+				}
+				dt["EIP712Domain"] = []any{}
+				var sb strings.Builder
+				writeJSON(&sb, oobj{{"types", dt}, {"primaryType", primary}, {"domain", oobj{}}, {"message", msgC}})
+				addE712Case(c, sb.String(), extra, "abi-derived")
 			}
 		},
 		Impl:  e712Impl,
